@@ -7,6 +7,43 @@ COMMON_ASSUME = [
 ]
 
 PROPS = {
+    "C05": {
+        "stages": [{"bin": "minmax"}],
+        "rule": "linear-scan model on the logical snapshot: empty => EmptyInput; float data containing a NaN (any payload/sign, any position) => UndefinedOrder and only then; otherwise the value form returns an element <= (>=) every element, the index form returns an in-bounds index whose element equals the value form. Exhaustive part: ALL 1-D f64 arrays of length 0..6 (7 thorough) over {NaN, -inf, -0, +0, 1} in 3 layouts (each (array, layout) one distinct case, counted exactly; length >= 2 non-trivial). Random part: i32, u8, i64, f32, f64, N64; 0..4 dims incl. zero-length axes; zoo layouts; static (Ix0..Ix4), dynamic and owned-sliced arrays; NaN first/middle/last/several/all; ties, signed zeros, infinities, type extremes. distinct = hash of (type, shape, layout, mode, data bits).",
+        "exhaustive": True,
+        "exhaustive_bound": {"quick": "all f64 arrays of length <= 6 over a 5-value alphabet x 3 layouts", "thorough": "length <= 7"},
+        "assumptions": COMMON_ASSUME,
+    },
+    "C06": {
+        "stages": [{"kind": "oracle", "bin": "num"}],
+        "rule": "floats (f32, f64): every call of mean / weighted_sum / weighted_mean / weighted_sum_axis / weighted_mean_axis / harmonic_mean / geometric_mean is logged (operand and result bit patterns in logical order) and judged offline: the exact value is recomputed with fractions.Fraction (ln via 60-digit decimal) and |result - exact| <= 4 x the a-priori forward error bound of %s (gamma_k * sum|terms|); harmonic mean judged in the reciprocal domain, geometric mean in the log domain; per-axis results are judged lane by lane (lane extracted by the harness's own index arithmetic) together with the whole-array routine applied to an owned copy of that lane. Data and weights always have DIFFERENT zoo layouts (pairing by logical index). Integers (i32, i64, in-process): exact i128 reference, the type's truncating division, per-axis element == exact lane value == whole-array routine on the lane. Data classes: uniform, cancelling signs, common offset 1e0..1e12, mixed magnitudes 1e+-8, positive, small integers, constant, large mean; weights: unit, random, 12 decades, with zeros. distinct = hash of (type, shape, axis, both layouts, data bits, weight bits); non-trivial = >= 2 elements." % "DESIGN.md section 4",
+        "exhaustive": False,
+        "assumptions": COMMON_ASSUME + ["a fault whose effect is below the stated tolerance is indistinguishable from roundoff and is not reported", "no intermediate underflow/overflow (generators keep magnitudes away from the exponent limits)"],
+    },
+    "C07": {
+        "stages": [{"kind": "oracle", "bin": "num"}],
+        "rule": "every call of weighted_var / weighted_std / their per-axis forms / central_moment(p<=8) / central_moments / skewness / kurtosis on f32 and f64 data is logged and judged offline against the definition evaluated in exact rationals: variance within 4 x the first-order forward error bound of the documented West recurrence (obtained by replaying the recurrence in exact arithmetic), std via r^2, central moments within 4(n+4p+8)u(1/n)sum(|x-mean|+2delta)^p, orders 0 and 1 exactly 1 and 0, skewness/kurtosis with propagated bounds in 60-digit decimals (skipped when the second moment is within its own bound of zero); per-axis forms lane by lane plus the whole-array routine on the owned lane. ddof in {0, 1, 1/4, 1/2}; weights >= 0 with positive total incl. leading and interior zeros; data with mean/spread up to 1e12 (f64) / 1e3 (f32). distinct as for C06.",
+        "exhaustive": False,
+        "assumptions": COMMON_ASSUME + ["a fault whose effect is below the stated tolerance is indistinguishable from roundoff and is not reported"],
+    },
+    "C08": {
+        "stages": [{"kind": "oracle", "bin": "num"}],
+        "rule": "cov(ddof) and pearson_correlation on 1..8 variables x 2..65 observations (f32, f64; C / F / random zoo layouts; uniform, offset, mixed-magnitude, integer, large-mean and linearly dependent rows; ddof in {0, 1, 1/2, o-3/4}) are logged and judged offline entry by entry against the exact rational definition with the bound 4[(o+6)u sum(|xi-mi|+di)(|xj-mj|+dj) + o di dj]/(o-ddof); symmetry within 2 tol; diagonal >= -tol; correlation against cov/(sigma_i sigma_j) in 60-digit decimals with the propagated bound, diagonal 1 and |rho| <= 1 up to that bound; invariance under an EXACT positive affine rescaling (dyadic factor, integer-grid data) and sign flip under exact negation of one variable. distinct = hash of (type, shape, layout, data bits).",
+        "exhaustive": False,
+        "assumptions": COMMON_ASSUME + ["correlation entries are judged only for non-degenerate variables (variance > 4 x its own error bound)"],
+    },
+    "C09": {
+        "stages": [{"kind": "oracle", "bin": "num"}],
+        "rule": "integers (i8, i16, i32, i64, i128, num-bigint BigInt; in-process): count_eq / count_neq / sq_l2_dist / l1_dist / linf_dist equal the exact i128 values (cases whose exact distance does not fit the type are skipped and counted), exactly symmetric, zero for identical arguments, derived measures equal the documented f64 function of the exact distance; operands in 4 memory layouts each (C, F, reversed, stepped). Floats (f32, f64; logged, judged offline): sq_l2 / l1 within gamma_k * sum|terms|, linf EXACTLY the max of the correctly rounded |a-b|, l2 / mae / mse / rmse within 2 ulp of the documented function of the RETURNED distance, PSNR within 8u|r| + 40u/ln10, symmetry with swapped operands, counts exact; every pairing of 8 zoo layouts for the two operands and 5 ownership pairings (view/view, owned/view, ArcArray/view, CowArray/owned, ViewMut/ArcArray); shapes of 1..4 dims. distinct = hash of (type, shape, layout pair, ownership, data).",
+        "exhaustive": False,
+        "assumptions": COMMON_ASSUME,
+    },
+    "C10": {
+        "stages": [{"kind": "oracle", "bin": "num"}],
+        "rule": "entropy / cross_entropy / kl_divergence on f32 and f64 arrays of 1..3 dims (p and q in different zoo layouts, q owned or view) are logged and judged offline: terms -x ln x, -p ln q, -p ln(q/p) in 60-digit decimals, zero-p terms exactly zero (even against NaN in q), tol = 4[(n+8)u sum|t_i| + 4u sum|p_i|]; q = 0 with p > 0 => +inf; NaN in a contributing term => NaN; KL(p,p) == 0 exactly; |H(p,q) - H(p) - KL(p,q)| <= sum of tolerances; KL >= P ln(P/Q) - tol and H <= -X ln(X/n) + tol (log-sum inequality). Values in [1e-30, 1e3] (f32: [1e-20, 1e3]), zeros in p / q / both, normalised and unnormalised, q ~ p. distinct = hash of (type, shape, layouts, p bits, q bits).",
+        "exhaustive": False,
+        "assumptions": COMMON_ASSUME + ["ln of the platform libm is accurate to about 1 ulp (covered by the safety factor 4)"],
+    },
     "C11": {
         "stages": [{"bin": "hist"}],
         "rule": "history monitor: a model histogram (map index tuple -> count; the cell of an observation found by a LINEAR scan e_i <= v < e_{i+1} over each axis's sorted distinct edges, independent of the crate's binary search) is updated per accepted insert and compared with the WHOLE counts() array after EVERY add_observation: Ok iff the model finds a cell, counts equal the model everywhere (a rejected insert changed nothing), shape == per-axis bin counts, sum of counts == accepted inserts. Matrix form histogram(): equals the model of its rows for C / F / stepped / reversed / random zoo layouts of the observation matrix and for permuted rows. Exhaustive part: 1 and 2 axes, every subset of edges {0,2,4,6} per axis (zero-bin axes included), every observation in {below, each edge, each midpoint, above}^d fed as one history (each insert = one distinct case). Random part: 1..3 axes, 0..6 unsorted duplicated edges per axis, histories of 1..200 inserts mixing accepted and rejected points, i32 and N64. distinct = hash of (type, edges, history).",
@@ -61,8 +98,8 @@ PROPS = {
         "assumptions": COMMON_ASSUME + ["'(N-1)q' is read either as the f64 product or as the exact rational product; a result matching either reading is accepted", "Linear on 64-bit integers is judged only when |lower|,|higher| < 2^52 (stated in the property)"],
     },
     "C18": {
-        "stages": [{"bin": "quant"}],
-        "rule": "differential monitor between two executions of the real code on equal inputs (fresh embeddings, independent pivot policies): slice j of quantiles_axis_mut / quantiles_mut vs quantile_axis_mut / quantile_mut for q_j (request lists of length 0..32, unordered, with repeats, q sharing / straddling an index, 9 element types, 5 strategies, zoo layouts, every axis); get_many_from_sorted_mut(I)[i] vs get_from_sorted_mut(i) for request lists of length 0..32 on strided views. distinct = hash of (type, shape, axis, layout, strategy, q bits / request, data); non-trivial = >= 2 requests on a lane of length >= 2.",
+        "stages": [{"bin": "quant"}, {"kind": "oracle", "bin": "num"}],
+        "rule": "differential monitor between two executions of the real code on equal inputs (fresh embeddings, independent pivot policies): slice j of quantiles_axis_mut / quantiles_mut vs quantile_axis_mut / quantile_mut for q_j (request lists of length 0..32, unordered, with repeats, q sharing / straddling an index, 9 element types, 5 strategies, zoo layouts, every axis); get_many_from_sorted_mut(I)[i] vs get_from_sorted_mut(i) for request lists of length 0..32 on strided views; central_moments(p)[k] vs central_moment(k) BIT FOR BIT for all k <= p <= 10 (f32, f64, zoo layouts); each element of weighted_sum_axis / weighted_mean_axis / weighted_var_axis / weighted_std_axis vs the whole-array routine on an owned copy of that lane (both judged against the exact value by the offline oracle, bit-identical pairs counted). distinct = hash of (type, shape, axis, layout, strategy, q bits / request, data); non-trivial = >= 2 requests on a lane of length >= 2.",
         "exhaustive": False,
         "assumptions": COMMON_ASSUME,
     },
@@ -99,6 +136,42 @@ SANITIZER_STAGES = {}
 
 _EXPL = "exploration: the real code is executed and every execution is judged by an independent oracle; "
 MANIFEST_TEXT = {
+    "C05": {
+        "technique": "runtime monitoring: linear-scan reference model over executions of min/max/argmin/argmax, exhaustive for short arrays over a NaN/inf/signed-zero alphabet",
+        "level_text": _EXPL + "complete for 1-D f64 arrays up to the length bound over the 5-value alphabet; seeded generation for n-D, layouts and other element types.",
+        "level_note": "trusted: partial order of the primitive types; NaN recognised from the bit pattern",
+        "design_ref": "DESIGN.md section 3 C05",
+    },
+    "C06": {
+        "technique": "runtime monitoring: offline exact oracle (rational arithmetic + a-priori forward error bounds) over a recorded event log of calls of the real code; exact i128 reference model for integers",
+        "level_text": _EXPL + "decided up to an explicit tolerance that is an exact rational computed from the operands; evidence reports the closest approach to each bound.",
+        "level_note": "trusted: python fractions/decimal; the bound formulas of DESIGN.md section 4 (calibrated, safety factor 4)",
+        "design_ref": "DESIGN.md section 3 C06, section 4.1-4.2",
+    },
+    "C07": {
+        "technique": "runtime monitoring: offline exact oracle over the event log; the West recurrence is replayed in exact arithmetic to obtain its own forward error bound",
+        "level_text": _EXPL + "the bound follows the documented algorithm, so any implementation of it passes while errors that scale with |mean|/spread beyond it are caught.",
+        "level_note": "trusted: python fractions/decimal; bounds of DESIGN.md section 4.3-4.4",
+        "design_ref": "DESIGN.md section 3 C07",
+    },
+    "C08": {
+        "technique": "runtime monitoring: offline exact oracle over the event log (entrywise bounds, symmetry, range, exact-transform invariances)",
+        "level_text": _EXPL + "every matrix entry is judged against the rational definition.",
+        "level_note": "trusted: python fractions/decimal; bound of DESIGN.md section 4.5 (includes the second-order mean term)",
+        "design_ref": "DESIGN.md section 3 C08",
+    },
+    "C09": {
+        "technique": "runtime monitoring: exact integer reference model in-process (i128 / BigInt) and offline exact oracle for floats, over all pairings of layouts and ownership kinds",
+        "level_text": _EXPL + "integer results are compared exactly; float distances up to gamma_k bounds, linf exactly.",
+        "level_note": "trusted: i128 arithmetic, python fractions",
+        "design_ref": "DESIGN.md section 3 C09",
+    },
+    "C10": {
+        "technique": "runtime monitoring: offline oracle in 60-digit decimal arithmetic over the event log, plus identities between returned values",
+        "level_text": _EXPL + "special values (zero terms, +inf, NaN propagation) are decided symbolically, finite values up to the stated bound.",
+        "level_note": "trusted: python decimal ln at 60 digits",
+        "design_ref": "DESIGN.md section 3 C10",
+    },
     "C11": {
         "technique": "runtime monitoring: history monitor - model histogram (linear-scan bin model) compared with the full counts array after every insert of every history; conservation and order-independence checks; matrix form in zoo layouts",
         "level_text": _EXPL + "all single-observation placements are enumerated for small grids; longer mixed accept/reject histories are seeded random.",
